@@ -29,12 +29,12 @@ def api_rows(cid, source, mode):
             if isinstance(item, Exception):
                 events.append(["err", harness.describe_error(item)])
             else:
-                events.append(["row", list(item)])
+                events.append(["row", item])  # copied only after the iteration, as list(cutplace.rows(...)) would see it
     except m["errors"].CutplaceError as error:
         raised = harness.describe_error(error)
     except Exception as error:
         raised = {"type": type(error).__name__, "text": repr(error), "foreign": True}
-    return events, raised
+    return [["row", list(event[1])] if event[0] == "row" else event for event in events], raised
 
 
 def same_error(a, b):
@@ -171,7 +171,7 @@ def fault_case(case, part):
         content = b"\n".join(lines)
     elif kind == "open-quote":
         lines = content.split(b"\n")
-        lines[fault["row"]] = b'"' + lines[fault["row"]]
+        lines[fault["row"]] = fault.get("quote", '"').encode("ascii") + lines[fault["row"]]
         content = b"\n".join(lines)
     elif kind == "cut-record":
         lines = content.split(b"\n")
@@ -186,7 +186,7 @@ def fault_case(case, part):
     if fmt in ("ods", "excel") and readermachine.archive_still_readable(path):
         part.note("container faults that left the archive fully readable (not judged)")
         return
-    extra = [("encoding", fault["encoding"])] if "encoding" in fault else []
+    extra = ([("encoding", fault["encoding"])] if "encoding" in fault else []) + [tuple(p) for p in fault.get("props", [])]
     for mode in MODES:
         cid = readermachine.make_cid(dict(config, extra=extra), decls)
         events, raised = api_rows(cid, path, mode)
@@ -217,6 +217,10 @@ def fault_cases(tier):
                 cases.append({"config": config, "table": table, "fault": {"kind": "bad-byte", "row": row, "encoding": encoding}})
             if preset == "delimited":
                 cases.append({"config": config, "table": table, "fault": {"kind": "open-quote", "row": row}})
+                # the same fault under every relation of quote and escape character, quoting mode and line delimiter
+                for quote, props in (('"', [["Escape character", "\\"]]), ("'", [["Quote character", "'"]]), ("'", [["Quote character", "'"], ["Escape character", "\\"]]),
+                                     ('"', [["Quoting", "all"]]), ('"', [["Line delimiter", "any"]]), ("~", [["Quote character", "~"]])):
+                    cases.append({"config": config, "table": table, "fault": {"kind": "open-quote", "row": row, "quote": quote, "props": props}})
             else:
                 for by in range(1, 7):
                     cases.append({"config": config, "table": table, "fault": {"kind": "cut-record", "row": row, "by": by, "drop_tail": row == len(table) - 1}})
